@@ -216,7 +216,7 @@ func findFunctionCallViolation(
 		// Check if it's a method call (obj.Method). A method promoted through an embedded
 		// field belongs to the type that declares it, not to the type of obj.
 		recvType := ctx.pass.TypesInfo.TypeOf(fun.X)
-		if selection := ctx.pass.TypesInfo.Selections[fun]; selection != nil && selection.Kind() == types.MethodVal {
+		if selection := ctx.pass.TypesInfo.Selections[fun]; selection != nil && (selection.Kind() == types.MethodVal || selection.Kind() == types.MethodExpr) {
 			if sig, ok := selection.Obj().Type().(*types.Signature); ok && sig.Recv() != nil {
 				recvType = sig.Recv().Type()
 			}
